@@ -105,7 +105,7 @@ class Contract(object):
     def __init__(self, file, qualname, params=None, result=None, requires=(), ensures=(),
                  raises=None, modifies=None, loops=None, assumed=False, lemmas=(), ghost=None,
                  self_cls=None, inv=(), pure=False, note='', inline=(), raise_modifies=None,
-                 old_names=()):
+                 old_names=(), cases=None, alias=None, hints=(), prune=False, uses=()):
         self.file = file
         self.qualname = qualname
         self.params = params or {}
@@ -126,6 +126,11 @@ class Contract(object):
         self.pure = pure
         self.note = note
         self.inline = set(inline)
+        self.cases = [tuple(x) for x in cases] if cases else None
+        self.alias = dict(alias or {})
+        self.hints = list(hints)      # (case name or None, text): proved from requires(+case), then assumed
+        self.prune = prune
+        self.uses = list(uses)        # instances of separately proved lemmas, assumed at entry
 
     @staticmethod
     def _nm(kind, i, c):
@@ -273,6 +278,8 @@ def truthy(v, st=None):
         return z3.BoolVal(True)
     if isinstance(v, VRef):
         h = st.heap[v.ref]
+        if isinstance(h, HBytes):
+            return z3.Length(h.t) > 0
         if isinstance(h, HList):
             return z3.Length(h.seq) > 0
         if isinstance(h, HDict):
@@ -423,7 +430,10 @@ class SpecEval(object):
                 raise SpecError('result used where there is none')
             return e.result
         if n.id in e.env:
-            return e.env[n.id]
+            v = e.env[n.id]
+            if isinstance(v, VRef) and isinstance(e.st.heap.get(v.ref), HBytes):
+                return VStr(e.st.heap[v.ref].t, 'bytes')
+            return v
         if n.id in ('True', 'False'):
             return VBool(n.id == 'True')
         raise SpecError('spec: unknown name %s' % n.id)
@@ -711,6 +721,10 @@ def merge_vals(c, a, b, st=None):
 
 
 def binop(op, a, b, st):
+    if isinstance(a, VOpt):
+        a = a.val
+    if isinstance(b, VOpt):
+        b = b.val
     if isinstance(a, VBool) and not isinstance(op, (ast.BitAnd, ast.BitOr, ast.BitXor)):
         a = VInt(z3.If(a.t, 1, 0))
     if isinstance(b, VBool) and not isinstance(op, (ast.BitAnd, ast.BitOr, ast.BitXor)):
@@ -744,11 +758,7 @@ def binop(op, a, b, st):
         if isinstance(op, ast.Pow) and ca is not None and cb is not None:
             return VInt(ca ** cb)
         if isinstance(op, (ast.BitAnd, ast.BitOr, ast.BitXor)):
-            if ca is not None and cb is not None:
-                return VInt({ast.BitAnd: ca & cb, ast.BitOr: ca | cb, ast.BitXor: ca ^ cb}[type(op)])
-            w = BITWIDTH[0]
-            f = {ast.BitAnd: bit_and, ast.BitOr: bit_or, ast.BitXor: bit_xor}[type(op)]
-            return VInt(f(a.t, b.t, w))
+            return VInt(bitop(type(op), a.t, b.t))
     if isinstance(op, ast.Mult) and isinstance(a, VStr) and isinstance(b, VInt):
         k = const_int(b.t)
         if k is not None:
@@ -759,6 +769,54 @@ def binop(op, a, b, st):
     if isinstance(op, (ast.BitOr, ast.BitAnd)) and isinstance(a, VBool) and isinstance(b, VBool):
         return VBool(z3.Or(a.t, b.t) if isinstance(op, ast.BitOr) else z3.And(a.t, b.t))
     raise Unsupported('binop %s on %r, %r' % (type(op).__name__, a, b))
+
+
+def and_const(x, K):
+    """x & K for a constant K >= 0 and any x >= 0, in pure integer arithmetic"""
+    tot = None
+    b = 0
+    while (1 << b) <= K:
+        if K & (1 << b):
+            lo = b
+            while K & (1 << b):
+                b += 1
+            # run of set bits [lo, b): 2^lo * ((x div 2^lo) mod 2^(b-lo))
+            q = x if lo == 0 else x / z3.IntVal(1 << lo)
+            term = q % z3.IntVal(1 << (b - lo))
+            if lo:
+                term = (1 << lo) * term
+            tot = term if tot is None else tot + term
+        else:
+            b += 1
+    return tot if tot is not None else z3.IntVal(0)
+
+
+def bitop(kind, a, b, depth=0):
+    """a <op> b on non-negative ints.  Constants fold; If-terms distribute; a constant
+    operand gives an exact arithmetic encoding (div/mod by powers of two); otherwise Int<->BV."""
+    a = z3.simplify(a)
+    b = z3.simplify(b)
+    ca = a.as_long() if z3.is_int_value(a) else None
+    cb = b.as_long() if z3.is_int_value(b) else None
+    if ca is not None and cb is not None:
+        return z3.IntVal({ast.BitAnd: ca & cb, ast.BitOr: ca | cb, ast.BitXor: ca ^ cb}[kind])
+    if depth < 6:
+        if z3.is_app_of(a, z3.Z3_OP_ITE):
+            return z3.If(a.arg(0), bitop(kind, a.arg(1), b, depth + 1), bitop(kind, a.arg(2), b, depth + 1))
+        if z3.is_app_of(b, z3.Z3_OP_ITE):
+            return z3.If(b.arg(0), bitop(kind, a, b.arg(1), depth + 1), bitop(kind, a, b.arg(2), depth + 1))
+    if ca is not None or cb is not None:
+        K, x = (ca, b) if ca is not None else (cb, a)
+        if K >= 0:
+            conj = and_const(x, K)
+            if kind is ast.BitAnd:
+                return conj
+            if kind is ast.BitOr:
+                return x + K - conj
+            return x + K - 2 * conj
+    w = BITWIDTH[0]
+    f = {ast.BitAnd: bit_and, ast.BitOr: bit_or, ast.BitXor: bit_xor}[kind]
+    return f(a, b, w)
 
 
 # width used for Int<->BV conversions of bitwise operators; obligations must
